@@ -111,7 +111,7 @@ def prev_index(dec) -> int:
     return names.index(name) + 1 if name in names else -1
 
 
-def observe(dec, payload: bytes, own: int, message=None, twin=None) -> dict:
+def observe(dec, payload: bytes, own: int, message=None, twin=None, msgdesc: str = "") -> dict:
     acc, res = individual(payload)
     pb = prev_index(dec)
     if message is not None:
@@ -126,8 +126,8 @@ def observe(dec, payload: bytes, own: int, message=None, twin=None) -> dict:
     detail = v if o == "raised" else ("" if outcome != "raised" else f"returned {type(v).__name__}")
     same = [bool(outcome == "dict" and r is not None and r == v) for r in res]
     return {"acc": acc, "same": same, "outcome": outcome, "detail": detail or "", "prev_before": pb, "prev_after": prev_index(dec),
-            "own": own, "pair": pair, "steps": steps, "n": len(payload), "payload": payload.hex() if len(payload) <= 400 else payload[:400].hex() + "..",
-            "form": "message" if message is not None else "payload"}
+            "own": own, "pair": pair, "steps": steps, "n": len(payload), "payload": payload.hex(),
+            "form": "message" if message is not None else "payload", "msg": msgdesc or ("dlms" if message is not None else "")}
 
 
 def _limit_memory():
@@ -219,11 +219,9 @@ def _job_c15(args):
                 break
         # decode_message with every kind of message object the library has (C15 names both entry points)
         if calls and calls[-1]["outcome"] != "hang":
-            for msg in message_objects(payload):
+            for desc, msg in message_objects(payload):
                 dec = AutoDecoder()
-                if primers[-1][1] is not None and len(calls) % 2:
-                    guarded(dec.decode_message_payload, primers[-1][1])
-                calls.append(observe(dec, payload, 0, message=msg))
+                calls.append(observe(dec, payload, 0, message=msg, msgdesc=desc))
         out.append({"id": stable_id("c15", name, payload.hex()), "canary": "", "names": [name], "calls": calls})
     return out
 
@@ -236,23 +234,34 @@ def message_objects(payload: bytes) -> list:
     from .drv_hdlc import mkframe
     out = []
     try:
-        out.append(DlmsMessage(payload))
+        out.append(("dlms", DlmsMessage(payload)))
     except Exception:  # noqa: BLE001
         pass
     if 0 < len(payload) <= 2030:
         fr = mkframe(info=payload)
-        for wire in (fr, fr[:-1] + bytes([fr[-1] ^ 1])):
+        for desc, wire in (("hdlc", fr), ("hdlc_badfcs", fr[:-1] + bytes([fr[-1] ^ 1]))):
             try:
-                out += HdlcFrameReader(False, False).read(b"\x7e" + wire + b"\x7e")[:1]
+                out += [(desc, f) for f in HdlcFrameReader(False, False).read(b"\x7e" + wire + b"\x7e")[:1]]
             except Exception:  # noqa: BLE001
                 pass
     if payload and all(b < 128 for b in payload) and b"!" not in payload and len(payload) < 4000:
-        for ident in (b"/ABC5id", b"/abc5id", b"/ABC5" + b"x" * 17, b"/ABCxid", b"/", b"/ABC5\xffid", b"/ABC5\\2\\3id"):
+        for ident in IDENTS:
             try:
-                out.append(DataReadout(ident + b"\r\n" + payload + b"!\r\n"))
+                out.append(("readout:" + ident.hex(), DataReadout(ident + b"\r\n" + payload + b"!\r\n")))
             except Exception:  # noqa: BLE001  (constructor's own refusal)
                 pass
     return out
+
+
+IDENTS = (b"/ABC5id", b"/abc5id", b"/ABC5" + b"x" * 17, b"/ABCxid", b"/", b"/ABC5\xffid", b"/ABC5\\2\\3id")
+
+
+def message_from(desc: str, payload: bytes):
+    for d, m in message_objects(payload):
+        if d == desc:
+            return m
+    from han.common import DlmsMessage
+    return DlmsMessage(payload)
 
 
 def harvest(chk: Check, traces, verdicts, prefixes):
@@ -379,19 +388,37 @@ def run_c12(chk: Check) -> int:
 
 
 def replay_any(chk: Check, rp: dict, prefixes) -> int:
+    """Re-run a recorded history: same payloads, same entry points, same kind of message objects, fresh decoder(s)."""
     if rp.get("kind") == "auto-gen":
         stub_walk(chk)
         return chk.finish(rule="replay of the model transitions")
+    from han.autodecoder import AutoDecoder
     t = rp["trace"]
-    gen = {n: (n, b, o) for n, b, o in genuine_pool()}
-    h = []
-    for name, c in zip(t["names"] + [t["names"][-1]] * len(t["calls"]), t["calls"]):
-        payload = bytes.fromhex(c["payload"].rstrip(".")) if not c["payload"].endswith("..") else gen.get(name, (name, b"", 0))[1]
-        h.append((name, payload, c["own"], c["form"] == "message"))
-    if rp["trace"]["id"].startswith("c15") or len(t["names"]) == 1 and len(t["calls"]) > 1:
-        nt = _job_c15(([(t["names"][0], h[0][1])], PRIMERS()))[0]
+    calls = []
+    if t["id"] and len(t["names"]) == 1 and len(t["calls"]) > 1:
+        # a C15 record: every call starts from its own decoder, primed as recorded (prev_before)
+        gen = genuine_pool()
+        for c in t["calls"]:
+            payload = bytes.fromhex(c["payload"])
+            dec = AutoDecoder()
+            if c["prev_before"] > 0:
+                g = next((x for x in gen if x[2] == c["prev_before"]), None)
+                if g:
+                    guarded(dec.decode_message_payload, g[1])
+            if c["form"] == "message":
+                calls.append(observe(dec, payload, c["own"], message=message_from(c.get("msg", "dlms"), payload), msgdesc=c.get("msg", "dlms")))
+            else:
+                calls.append(observe(dec, payload, c["own"]))
     else:
-        nt = _job_histories([h])[0]
+        dec, twin = AutoDecoder(), AutoDecoder()
+        for c in t["calls"]:
+            payload = bytes.fromhex(c["payload"])
+            if c["form"] == "message":
+                calls.append(observe(dec, payload, c["own"], message=message_from(c.get("msg", "dlms"), payload), twin=twin, msgdesc=c.get("msg", "dlms")))
+            else:
+                calls.append(observe(dec, payload, c["own"]))
+                guarded(twin.decode_message_payload, payload)
+    nt = {"id": "replay-" + str(t["id"]), "canary": "", "names": t["names"], "calls": calls}
     v = chk.judge("auto", "Trace_Auto", [nt], what="replay")
     harvest(chk, [nt], v, prefixes)
     return chk.finish(rule="replay of one history")
